@@ -13,6 +13,11 @@ import (
 	"elaverif/extract/ex"
 	"elaverif/extract/wiretok"
 
+	"github.com/elastos/Elastos.ELA/core/types"
+	dmsg "github.com/elastos/Elastos.ELA/dpos/p2p/msg"
+	"github.com/elastos/Elastos.ELA/p2p"
+	"github.com/elastos/Elastos.ELA/p2p/msg"
+
 )
 
 // caseValues lists the integer values of all case labels of the first switch in a function.
@@ -47,6 +52,39 @@ func caseValues(dir, fn string) []int64 {
 
 var constLen = regexp.MustCompile(`^make\(.*, [0-9]+\)$`)
 
+// msgTypes: the message type constructed for each command by the peer stacks (base switch of
+// p2p/peer resp. dpos/p2p/peer, then elanet/server.go resp. dpos/network.go)
+var msgTypes = map[string]map[string]func() p2p.Message{
+	"elanet": {
+		"version": func() p2p.Message { return &msg.Version{} }, "verack": func() p2p.Message { return &msg.VerAck{} },
+		"getaddr": func() p2p.Message { return &msg.GetAddr{} }, "addr": func() p2p.Message { return &msg.Addr{} },
+		"ping": func() p2p.Message { return &msg.Ping{} }, "pong": func() p2p.Message { return &msg.Pong{} },
+		"mempool": func() p2p.Message { return &msg.MemPool{} }, "tx": func() p2p.Message { return &msg.Tx{} },
+		"block": func() p2p.Message { return msg.NewBlock(&types.DposBlock{}) }, "inv": func() p2p.Message { return &msg.Inv{} },
+		"notfound": func() p2p.Message { return &msg.NotFound{} }, "getdata": func() p2p.Message { return &msg.GetData{} },
+		"getblocks": func() p2p.Message { return &msg.GetBlocks{} }, "filteradd": func() p2p.Message { return &msg.FilterAdd{} },
+		"filterclear": func() p2p.Message { return &msg.FilterClear{} }, "filterload": func() p2p.Message { return &msg.FilterLoad{} },
+		"txfilter": func() p2p.Message { return &msg.TxFilterLoad{} }, "reject": func() p2p.Message { return &msg.Reject{} },
+		"daddr": func() p2p.Message { return &msg.DAddr{} },
+	},
+	"dpos": {
+		"version": func() p2p.Message { return &dmsg.Version{} }, "verack": func() p2p.Message { return &dmsg.VerAck{} },
+		"addr": func() p2p.Message { return &dmsg.Addr{} }, "ping": func() p2p.Message { return &dmsg.Ping{} },
+		"pong":  func() p2p.Message { return &dmsg.Pong{} },
+		"block": func() p2p.Message { return msg.NewBlock(&types.Block{}) }, "tx": func() p2p.Message { return &msg.Tx{} },
+		"acc_vote": func() p2p.Message { return &dmsg.Vote{Command: dmsg.CmdAcceptVote} },
+		"rej_vote": func() p2p.Message { return &dmsg.Vote{Command: dmsg.CmdRejectVote} },
+		"proposal": func() p2p.Message { return &dmsg.Proposal{} }, "inv": func() p2p.Message { return &dmsg.Inventory{} },
+		"getblock": func() p2p.Message { return &dmsg.GetBlock{} }, "get_blc": func() p2p.Message { return &dmsg.GetBlocks{} },
+		"res_blc": func() p2p.Message { return &dmsg.ResponseBlocks{} }, "req_con": func() p2p.Message { return &dmsg.RequestConsensus{} },
+		"res_con": func() p2p.Message { return &dmsg.ResponseConsensus{} }, "req_pro": func() p2p.Message { return &dmsg.RequestProposal{} },
+		"ill_pro": func() p2p.Message { return &dmsg.IllegalProposals{} }, "ill_vote": func() p2p.Message { return &dmsg.IllegalVotes{} },
+		"side_ill":    func() p2p.Message { return &dmsg.SidechainIllegalData{} },
+		"ina_ars":     func() p2p.Message { return &dmsg.ResponseInactiveArbitrators{} },
+		"rev_to_dpos": func() p2p.Message { return &dmsg.ResponseRevertToDPOS{} }, "reset_view": func() p2p.Message { return &dmsg.ResetView{} },
+	},
+}
+
 func natList(name string, vs []int64) {
 	q := make([]string, len(vs))
 	for i, v := range vs {
@@ -67,6 +105,51 @@ func main() {
 		lims = append(lims, v)
 	}
 	natList("p2pLimits", lims)
+
+	// message level: MaxLength() of the message type behind every command of the two peer stacks
+	// (asked of the real types), the overall payload limit, and the text of the length guard of
+	// CheckAndCreateMessage / CheckAndCreateTxMessage
+	ex.DefNat("maxMessagePayload", p2p.MaxMessagePayload)
+	for _, st := range []string{"elanet", "dpos"} {
+		var names []string
+		for c := range msgTypes[st] {
+			names = append(names, c)
+		}
+		sort.Strings(names)
+		fmt.Printf("def msgMax_%s : List (String × Nat) := [", st)
+		for i, c := range names {
+			if i > 0 {
+				fmt.Printf(", ")
+			}
+			fmt.Printf("(%s, %d)", ex.LeanStr(c), msgTypes[st][c]().MaxLength())
+		}
+		fmt.Println("]")
+	}
+	pf := ex.Parse("p2p/peer/peer.go")
+	var guards []string
+	for _, fn := range []string{"CheckAndCreateMessage", "CheckAndCreateTxMessage"} {
+		fd := pf.MustFunc(fn)
+		for _, st := range fd.Body.List {
+			if is, ok := st.(*ast.IfStmt); ok {
+				guards = append(guards, fn+": if "+pf.Src(is.Cond))
+				break
+			}
+		}
+		// everything up to the first make( … hdr.Length …): is the guard before it?
+		seenGuard, ok := false, false
+		for _, st := range fd.Body.List {
+			if _, isIf := st.(*ast.IfStmt); isIf && !seenGuard {
+				seenGuard = true
+				continue
+			}
+			if strings.Contains(pf.Src(st), "make([]byte, hdr.Length)") {
+				ok = seenGuard
+				break
+			}
+		}
+		guards = append(guards, fmt.Sprintf("%s: guard-before-make %v", fn, ok))
+	}
+	ex.DefStrList("msgGuards", guards)
 	// for each pre-sizing p2p reader: every make(…) whose size mentions the wire count, paired with
 	// "was an `if count > <Max> { return … }` statement seen before it?"
 	fmt.Printf("def p2pCountMakes : List (String × String × Bool) := [")
